@@ -196,7 +196,7 @@ Section Deps.
       assert (Hcr1 : creating (reg st1) = h :: cr) by congruence.
       assert (Hcached : cached (reg st) h = true)
         by (apply (i_creating_cached st (g_inv vt s st Hg)); rewrite Hcr; left; reflexivity).
-      destruct (get_all_life s rec Hlife (fun m => m = h) _ _ _ _ ltac:(intros m ->; exact Hcached) E1) as [Hfr _].
+      destruct (get_all_life full_block s rec Hlife (fun m => m = h) _ _ _ _ ltac:(intros m ->; exact Hcached) E1) as [Hfr _].
       destruct (Hfr h eq_refl) as [Hsub1 _].
       destruct (inject vt s st1 h k p vs) as [st2|k2 st2] eqn:E2; [|discriminate].
       assert (Hb2 : B st2 /\ creating (reg st2) = h :: cr /\ log st2 = log st1).
